@@ -82,3 +82,16 @@ M("c05.circle<=", "C05", C, "if a >= sqrt(b * b + c * c):", "if a <= sqrt(b * b 
 M("c05.pa-sign", "C05", C, "p = atan2(sin(da), (cos(d2) * tan(d1) - sin(d2) * cos(da)))", "p = atan2(sin(da), (cos(d2) * tan(d1) + sin(d2) * cos(da)))")
 M("c05.small-eps-error", "C05", C, "    eps = obliquity.rad()\n    ra = atan2", "    eps = obliquity.rad() * (1.0 + 1e-9)\n    ra = atan2")
 M("c05.asin-clamp-too-wide", "C05", C, "return asin(max(-1.0, min(1.0, x)))", "return asin(max(-0.9999999999, min(0.9999999999, x)))")
+# ---- C06
+M("c06.0.30188", "C06", C, "0.30188 - 0.000344 * tt", "0.30288 - 0.000344 * tt")
+M("c06.1.09468", "C06", C, "1.09468 + 0.000066 * tt", "1.09648 + 0.000066 * tt")
+M("c06.2004.3109", "C06", C, "        2004.3109\n", "        2004.3019\n")
+M("c06.sin-theta-sign", "C06", C, "    ) - sin(theta.rad()) * sin(start_dec.rad())", "    ) + sin(theta.rad()) * sin(start_dec.rad())")
+M("c06.z->zeta", "C06", C, "final_ra = atan2(a, b) + z.rad()", "final_ra = atan2(a, b) + zeta.rad()")
+M("c06.85->5", "C06", C, "if start_dec > 85.0:  # Coordinates are close to the pole", "if start_dec > 5.0:  # Coordinates are close to the pole", note="must still hold: acos branch is valid for any positive declination")
+M("c06.174.876", "C06", C, "pie += 174.876384", "pie += 174.867384")
+M("c06.5029", "C06", C, "5029.0966", "5029.966")
+M("c06.pie-p", "C06", C, "final_lon = p.rad() + pie.rad() - atan2(a, b)", "final_lon = -p.rad() + pie.rad() - atan2(a, b)")
+M("c06.pm-t", "C06", C, "start_ra += p_motion_ra * t * 100.0", "start_ra += p_motion_ra * t")
+M("c06.newcomb-const", "C06", C, "zeta = t * (2304.25 + 1.396 * tt", "zeta = t * (2340.25 + 1.396 * tt")
+M("c06.elements-domega", "C06", C, "domega = atan2(-sin(etar) * sin(lon0r - pir),", "domega = atan2(sin(etar) * sin(lon0r - pir),")
